@@ -604,7 +604,9 @@ def observe(o):
     elif isinstance(o, cirq.Gateset):
         p = _probe()
         obs["name"] = o.name
-        obs["gates"] = sorted(repr(g) for g in o.gates)
+        # (a family's printed form lists its tag sets in iteration order, which is not part of its meaning)
+        obs["gates"] = sorted(repr((type(g).__name__, repr(g.gate), g.name, g.description, sorted(map(repr, g.tags_to_accept)),
+                                    sorted(map(repr, g.tags_to_ignore)))) for g in o.gates)
         obs["accepts"] = [_try(lambda op=op: op in o) for op in p["ops"]]
         if isinstance(o, cirq.CompilationTargetGateset):
             obs["compiled"] = _try(lambda: repr(cirq.optimize_for_target_gateset(p["circuit"], gateset=o)))
